@@ -70,7 +70,14 @@ type poller struct {
 	// on the same IO object.
 	lck sync.Mutex
 
-	// pending is the number of pending posts the poller needs to execute
+	// dispatching holds the handlers currently being run by dispatch. Only the poller's goroutine touches it.
+	dispatching []func()
+
+	// posted is the number of handlers registered with Post which did not run yet. Accessed atomically.
+	posted int64
+
+	// pending is the number of pending operations, posts included. Accessed atomically, since Post can be called from
+	// any goroutine.
 	pending int64
 
 	// closed is true if the close() has been called on fd
@@ -105,13 +112,13 @@ func NewPoller() (Poller, error) {
 		return nil, err
 	}
 	// ignore the waker
-	p.pending--
+	atomic.AddInt64(&p.pending, -1)
 
 	return p, err
 }
 
 func (p *poller) Pending() int64 {
-	return p.pending
+	return atomic.LoadInt64(&p.pending)
 }
 
 func (p *poller) Close() error {
@@ -130,7 +137,8 @@ func (p *poller) Closed() bool {
 func (p *poller) Post(handler func()) error {
 	p.lck.Lock()
 	p.posts = append(p.posts, handler)
-	p.pending++
+	atomic.AddInt64(&p.posted, 1)
+	atomic.AddInt64(&p.pending, 1)
 	p.lck.Unlock()
 
 	// Concurrent writes are thread safe for eventfds.
@@ -139,10 +147,7 @@ func (p *poller) Post(handler func()) error {
 }
 
 func (p *poller) Posted() int {
-	p.lck.Lock()
-	defer p.lck.Unlock()
-
-	return len(p.posts)
+	return int(atomic.LoadInt64(&p.posted))
 }
 
 func (p *poller) Poll(timeoutMs int) (n int, err error) {
@@ -217,13 +222,18 @@ func (p *poller) dispatch() {
 		}
 	}
 
+	// Take the posted handlers and run them without holding the lock, such that handlers can call Post (or Posted)
+	// themselves. Handlers posted while these ones run are executed on the next dispatch.
 	p.lck.Lock()
-	for _, handler := range p.posts {
-		handler()
-		p.pending--
-	}
-	p.posts = p.posts[:0]
+	p.posts, p.dispatching = p.dispatching[:0], p.posts
 	p.lck.Unlock()
+
+	for i, handler := range p.dispatching {
+		handler()
+		p.dispatching[i] = nil
+		atomic.AddInt64(&p.posted, -1)
+		atomic.AddInt64(&p.pending, -1)
+	}
 }
 
 func (p *poller) SetRead(slot *Slot) error {
@@ -237,7 +247,7 @@ func (p *poller) SetWrite(slot *Slot) error {
 func (p *poller) setRW(fd int, slot *Slot, flag PollerEvent) error {
 	events := &slot.Events
 	if *events&flag != flag {
-		p.pending++
+		atomic.AddInt64(&p.pending, 1)
 
 		oldEvents := *events
 		*events |= flag
@@ -251,7 +261,7 @@ func (p *poller) setRW(fd int, slot *Slot, flag PollerEvent) error {
 		if err != nil {
 			// The registration failed, so nothing is pending on this slot for `flag`.
 			*events = oldEvents
-			p.pending--
+			atomic.AddInt64(&p.pending, -1)
 		}
 		return err
 	}
@@ -305,7 +315,7 @@ func (p *poller) Del(slot *Slot) error {
 func (p *poller) DelRead(slot *Slot) error {
 	events := &slot.Events
 	if *events&PollerReadEvent == PollerReadEvent {
-		p.pending--
+		atomic.AddInt64(&p.pending, -1)
 		*events ^= PollerReadEvent
 		if *events != 0 {
 			return p.modify(slot.Fd, createEvent(*events, slot))
@@ -318,7 +328,7 @@ func (p *poller) DelRead(slot *Slot) error {
 func (p *poller) DelWrite(slot *Slot) error {
 	events := &slot.Events
 	if *events&PollerWriteEvent == PollerWriteEvent {
-		p.pending--
+		atomic.AddInt64(&p.pending, -1)
 		*events ^= PollerWriteEvent
 		if *events != 0 {
 			return p.modify(slot.Fd, createEvent(*events, slot))
